@@ -152,6 +152,9 @@ let () =
                  | "dense_copy_cap" -> let ycap = nextn c in let cs = nlist_of c in let cap = nextn c in tr_dense_copy_cap ycap cs cap k
                  | "dense_resize2" -> let cap = nextn c in let cs = nlist_of c in let ns = nextn c in let nc = nextn c in tr_dense_resize2 cap cs ns nc k
                  | "dense_from_sparse" -> let rs = nextn c in tr_dense_from_sparse rs (used_of c) k
+                 | "mip_add" -> let sz = nextn c in let cap = nextn c in let nc = nextn c in let cs = nextn c in
+                     let m = nexti c in let subs = times m (fun () -> let l = (match next c with "n" -> LNew | _ -> LGmp) in let z = nextn c in (l, z)) in
+                     tr_mip_add_at sz cap nc cs subs k
                  | "sv_reserve" -> let oc = nextn c in let sz = nextn c in let want = nextn c in let cc = nextn c in let szt = nextn c in tr_sv_reserve oc sz want cc szt k
                  | s -> failwith ("prog " ^ s)) in
               Printf.printf "%s ok=%d leaked=%d owned=%d valid=%s ev%s\n" tag (if ok then 1 else 0) (int_of_n leaked) (int_of_n owned)
